@@ -5,3 +5,4 @@ pub mod reject;
 pub mod bitshare;
 pub mod clones;
 pub mod cursor;
+pub mod chaos;
